@@ -249,7 +249,9 @@ class Ctx:
         self.rng = random.Random("%s-%d" % (pid, seed))
         # VERIF_TAG: side runs (seed soaks) get their own run directory and evidence location so that they can run next
         # to a registered check of the same property
-        self.run_dir = RUN / (pid + ("_" + os.environ["VERIF_TAG"] if os.environ.get("VERIF_TAG") else ""))
+        # the thorough tier has its own directory so that a quick and a thorough run of one property may overlap
+        self.run_dir = RUN / (pid + ("_thorough" if tier == "thorough" else "")
+                              + ("_" + os.environ["VERIF_TAG"] if os.environ.get("VERIF_TAG") else ""))
         self.obligations = []      # dict(name, kind, ok, detail)
         self.failures = []         # dict(key, what, input, expected, observed)
         self.samples = []
